@@ -22,7 +22,8 @@ ID = "C11"
 ENGINE = "eqlmc-E1"
 RULE = ("cases = (rule head, rule body tree or none, variables, world); all heads x all body trees of depth<=d on the "
         "rich world, representative trees on every tiny world; non-trivial = at least one and not all assignments "
-        "satisfy the body")
+        "satisfy the body"
+        ' Wave 7: positional heads of a class with an inherited keyword-only field declared first and of a dataclass whose hand-written __init__ reorders the parameters.')
 ASSUMPTIONS = ["registry cleared before each case (as the repository's test fixture does)",
                "a constructed instance is identified by its type and the identity of its field values"]
 
